@@ -81,6 +81,13 @@ type syncSource struct {
 	log     []string // "label" per request, in order
 	stored  []string // labels in the store at the time of each request
 	heights []int
+	nodes   []*fakeNode // every node that accepted a request, in order
+	nodeFor []string    // block label of that request
+	silent  []bool      // the node never answers
+
+	cancelWindow  int // > 0: see RequestBlock
+	cancelCalls   int
+	cancelReturns int
 }
 
 func (s *syncSource) RequestBlock(ctx context.Context, hash bitcoin.Hash32, handler bitcoin_reader.HandleBlock,
@@ -121,12 +128,65 @@ func (s *syncSource) RequestBlock(ctx context.Context, hash bitcoin.Hash32, hand
 	// handler, or the connection "drops", before RequestBlock returns. Interleavings of delivery,
 	// cancel, stop and shutdown are C16's subject.
 	node := &fakeNode{id: uuid.New()}
+	if s.cancelWindow > 0 {
+		// exploration is limited to the window from the first cancel call to the return of the
+		// cancelWindow-th: before and after it the execution follows the one canonical schedule
+		node.onCancel = func(entering bool) {
+			if entering {
+				if s.cancelCalls == 0 {
+					vsched.Quiet(false)
+				}
+				s.cancelCalls++
+			} else {
+				s.cancelReturns++
+				if s.cancelReturns == s.cancelWindow {
+					vsched.Quiet(true)
+				}
+			}
+		}
+	}
 	node.request(handler, onStop)
+	s.mu.Lock()
+	s.nodes = append(s.nodes, node)
+	s.nodeFor = append(s.nodeFor, label)
+	s.silent = append(s.silent, behaviour == "silent")
+	s.mu.Unlock()
 	feed := func(cb *chainBlock) {
 		ch := make(chan *wire.MsgTx, 2)
 		vsched.Send(ch, cb.tx)
 		vsched.Close(ch)
 		handler(bg, cb.header, 1, ch)
+	}
+	if strings.HasPrefix(behaviour, "late") {
+		// "late<seconds>": the node accepts the request (block reader registered) and the block only
+		// starts to arrive that much later - the handler is called then, unless the request was
+		// cancelled meanwhile (answer "not started": the handler is never called)
+		var secs int
+		fmt.Sscanf(behaviour, "late%d", &secs)
+		node.mu.Lock()
+		node.registered = true
+		node.mu.Unlock()
+		vsched.GoNamed("late-node-"+label, func() {
+			vsched.Sleep(time.Duration(secs) * time.Second)
+			node.mu.Lock()
+			closed := node.closed
+			if !closed {
+				node.called = true
+			}
+			node.mu.Unlock()
+			if !closed {
+				feed(b)
+			}
+		})
+		return node, nil
+	}
+	stallFor := 12 * time.Second
+	if strings.HasPrefix(behaviour, "stall") && behaviour != "stall" {
+		// "stall<seconds>": the same with another delay
+		var secs int
+		fmt.Sscanf(behaviour, "stall%d", &secs)
+		stallFor = time.Duration(secs) * time.Second
+		behaviour = "stall"
 	}
 	switch behaviour {
 	case "deliver":
@@ -162,7 +222,7 @@ func (s *syncSource) RequestBlock(ctx context.Context, hash bitcoin.Hash32, hand
 		vsched.GoNamed("stalling-node-"+label, func() {
 			ch := make(chan *wire.MsgTx, 2)
 			vsched.GoNamed("stalled-handler-"+label, func() { handler(bg, b.header, 1, ch) })
-			vsched.Sleep(12 * time.Second)
+			vsched.Sleep(stallFor)
 			node.mu.Lock()
 			closed := node.closed
 			node.mu.Unlock()
@@ -185,17 +245,20 @@ func (s *syncSource) RequestBlock(ctx context.Context, hash bitcoin.Hash32, hand
 }
 
 type syncConfig struct {
-	length     int   // main chain length above genesis
-	start      int   // configured start block height
-	processed  []int // heights already recorded as processed
-	script     map[string][]string
-	concurrent int
-	events     []string // trigger | extend | reorg
-	confirmErr []int    // heights at which the processor's ConfirmTx fails once (transient collaborator error)
-	fetchErr   int      // > 0: the store's FetchBlockTxIDs fails once, at this call (transient storage error during the walk-back)
-	lockedRepo bool     // every call into the header repository is a switch point (its own lock), so that several reads of one round can be separated by an arriving header
-	forkAt     int
-	forkLen    int
+	length       int   // main chain length above genesis
+	start        int   // configured start block height
+	processed    []int // heights already recorded as processed
+	script       map[string][]string
+	concurrent   int
+	events       []string // trigger | extend | reorg
+	confirmErr   []int    // heights at which the processor's ConfirmTx fails once (transient collaborator error)
+	fetchErr     int      // > 0: the store's FetchBlockTxIDs fails once, at this call (transient storage error during the walk-back)
+	lockedRepo   bool     // every call into the header repository is a switch point (its own lock), so that several reads of one round can be separated by an arriving header
+	forkAt       int
+	forkLen      int
+	allCancelled bool          // oracle clause: every silent source of a block that was completed or abandoned is told to cancel before shutdown
+	cancelWindow int           // > 0: only the part of the run from the first cancel call on a source to the return of the cancelWindow-th is explored; the rest follows one fixed schedule (vsched.Quiet)
+	quietFor     time.Duration // the first part of the run (virtual time) follows one fixed schedule (vsched.Quiet): exploration starts after it
 }
 
 func (c syncConfig) name() string {
@@ -238,6 +301,15 @@ func sortStrings(s []string) {
 
 func syncScenario(c syncConfig) func() func() []string {
 	return func() func() []string {
+		if c.cancelWindow > 0 {
+			vsched.Quiet(true)
+		} else if c.quietFor > 0 {
+			vsched.Quiet(true)
+			vsched.GoNamed("phase", func() {
+				vsched.Sleep(c.quietFor) // fires when nothing else can run: the system is idle at the switch
+				vsched.Quiet(false)
+			})
+		}
 		chain := buildSyncChain(c.length+1, c.forkAt, c.forkLen) // one spare header for the "extend" event
 		repo := headers.NewRepository(&headers.Config{Network: bitcoin.MainNet, MaxBranchDepth: 144}, vstore.New())
 		repo.DisableDifficulty()
@@ -260,7 +332,7 @@ func syncScenario(c syncConfig) func() func() []string {
 		for k, v := range c.script {
 			script[k] = append([]string{}, v...)
 		}
-		src := &syncSource{chain: chain, script: script, store: store}
+		src := &syncSource{chain: chain, script: script, store: store, cancelWindow: c.cancelWindow}
 		cfg := bitcoin_reader.DefaultConfig()
 		cfg.StartBlockHeight = c.start
 		cfg.ConcurrentBlockRequests = c.concurrent
@@ -300,7 +372,11 @@ func syncScenario(c syncConfig) func() func() []string {
 					hc := chain.main[c.length].header.Copy()
 					nmHeaders.ProcessHeader(bg, &hc)
 					nm.TriggerBlockSynchronize(bg)
-				case "reorg":
+				case "reorg", "reorg-later":
+					if ev == "reorg-later" {
+						// 17 s into the round: several downloads of the pending block are under way
+						vsched.Sleep(17 * time.Second)
+					}
 					for _, b := range chain.fork {
 						hc := b.header.Copy()
 						nmHeaders.ProcessHeader(bg, &hc)
@@ -310,17 +386,22 @@ func syncScenario(c syncConfig) func() func() []string {
 			})
 		}
 		finished := false
+		var shutdownAt time.Time
 		vsched.GoNamed("finisher", func() {
 			events.Wait()
 			nm.Wait(bg) // all synchronisation rounds are over
 			for _, list := range c.script {
 				for _, b := range list {
-					if b == "stall" || b == "slow" {
+					if strings.HasPrefix(b, "stall") || strings.HasPrefix(b, "late") || b == "slow" {
 						// the block manager keeps running after a round: let a stalled download play out
 						vsched.Sleep(20 * time.Second)
 					}
 				}
 			}
+			if c.allCancelled {
+				vsched.Sleep(30 * time.Second)
+			}
+			shutdownAt = vsched.Now()
 			vsched.Close(bmInterrupt)
 			finished = true
 		})
@@ -407,6 +488,23 @@ func syncScenario(c syncConfig) func() func() []string {
 					break
 				}
 			}
+			if c.allCancelled && finished {
+				for i, n := range src.nodes {
+					if !src.silent[i] {
+						continue
+					}
+					told := false
+					for _, t := range n.cancelTimes {
+						if t.Before(shutdownAt) {
+							told = true
+						}
+					}
+					if !told {
+						problems = append(problems, fmt.Sprintf("source-not-cancelled: source %d of block %s never answered and was not told to cancel although the block was completed or abandoned long before shutdown (requests %v)", i, src.nodeFor[i], src.log))
+						break
+					}
+				}
+			}
 			label(fmt.Sprintf("req=%s proc=%s", strings.Join(src.log, ","), strings.Join(order, ",")))
 			return problems
 		}
@@ -434,7 +532,11 @@ func c05Scenarios(thorough bool) []*scenario {
 				bounds = []int{0, 1} // the arriving header has to preempt the round between two of its reads
 			}
 		}
-		r = append(r, &scenario{name: c.name(), bounds: bounds, body: syncScenario(c), steps: 30000})
+		note := ""
+		if c.cancelWindow > 0 {
+			note = fmt.Sprintf("explored window: from the first cancel call on a source to the return of cancel call %d; before and after it the execution follows the one canonical schedule (vsched.Quiet)", c.cancelWindow)
+		}
+		r = append(r, &scenario{name: c.name(), bounds: bounds, body: syncScenario(c), steps: 30000, note: note})
 	}
 	// chain length x start height x processed prefix, no disturbance
 	for _, length := range []int{1, 2, 3} {
@@ -492,6 +594,15 @@ func c05Scenarios(thorough bool) []*scenario {
 	// two sources for one block: the first stalls mid-download, the second (asked after the block
 	// request delay) finishes first; the stalled one must not get the block processed a second time
 	add(syncConfig{length: 2, start: 1, concurrent: 2, script: map[string][]string{"a1": {"stall"}}}, 0)
+	// five sources for one block (asked 5 s apart): four never answer, the fifth delivers. When the
+	// block completes the other four are cancelled one after the other, each ending - and leaving the
+	// manager's list - while the next is being cancelled; every one of them must be told to cancel
+	// (a source that is not keeps downloading a block that is done, or abandoned). The same with
+	// four silent sources and the block leaving the best chain meanwhile (the request is abandoned).
+	// Explored is the window from the first cancel call to the return of the fourth (all schedules up
+	// to one preemption inside it); what comes before and after follows one fixed schedule (vsched.Quiet).
+	add(syncConfig{length: 1, start: 1, concurrent: 5, script: map[string][]string{"a1": {"silent", "silent", "silent", "silent"}}, cancelWindow: 4, allCancelled: true}, 0, 1)
+	add(syncConfig{length: 1, start: 1, concurrent: 4, script: map[string][]string{"a1": {"silent", "silent", "silent", "silent"}}, events: []string{"reorg-later"}, forkAt: 0, forkLen: 1, cancelWindow: 4, allCancelled: true}, 0, 1)
 	if thorough {
 		add(syncConfig{length: 2, start: 1, concurrent: 2, script: map[string][]string{"a1": {"drop"}}}, 0, 1)
 		add(syncConfig{length: 3, start: 2, events: []string{"trigger", "extend"}}, 0, 1)
